@@ -150,9 +150,14 @@ func (rn *runner) pureOps() {
 			o.Emit("size:"+strings.SplitN(kind+"-", "-", 2)[0], "size "+schemaT+" ; "+ptT, impl, true)
 		}
 	}
-	// ---- paging: how many points a single-shard search returns (collection bob/tiny: one shard)
+}
+
+// pagingProbe: how many points a paged single-shard search returns (collection bob/tiny: one shard),
+// offsets up to MaxInt64
+func (rn *runner) pagingProbe() {
+	o := rn.o
 	ci := rn.w.cols["bob"]["tiny"]
-	if ci != nil && len(ci.Shards) == 1 {
+	if ci != nil && len(ci.Shards) == 1 && len(ci.Points) > 0 {
 		var ids []string
 		for id := range ci.Points {
 			ids = append(ids, id)
@@ -176,7 +181,9 @@ func (rn *runner) pureOps() {
 						rn.restart()
 						return
 					}
-					rn.fail(fmt.Sprintf("5xx:v2Search:%d:paging", time0), fmt.Sprintf("search with offset=%d limit=%d answered %d", off, lim, resp.status), rn.replayFor("bob/tiny", req, ""))
+					if time0 >= 500 {
+						rn.fail(fmt.Sprintf("5xx:v2Search:%d:paging", time0), fmt.Sprintf("search with offset=%d limit=%d answered %d", off, lim, resp.status), rn.replayFor("bob/tiny", req, ""))
+					}
 					continue
 				}
 				var sr struct {
